@@ -187,4 +187,18 @@ def r16_4(ctx):
     ctx.check("yield self.key_repr" in norm(it.node) and "yield ': '" in norm(it.node), it.fq, "key: value", it.where, "dict items print as key: value", "dict items are no longer emitted as `key: value`")
 
 
-RULES = [r16_1, r16_2, r16_3, r16_4]
+def r16_5(ctx):
+    ctx.rule("R16.5", "measure = render for the fits-on-one-line decision: Node.check_length adds up cell_len over the very tokens Node.iter_tokens yields (the tokens that are printed), starting from the line's prefix length, and _Line.check_length passes whitespace + text + suffix")
+    m = ctx.repo.mod("pretty")
+    f = m.fn("Node.check_length")
+    loops = [x for x in walk_local(f.node) if isinstance(x, ast.For)]
+    ok = len(loops) == 1 and norm(loops[0].iter) == "self.iter_tokens()" and any(isinstance(b, ast.AugAssign) and norm(b.value) == f"cell_len({norm(loops[0].target)})" for b in loops[0].body)
+    ctx.check(ok, f.fq, "for token in self.iter_tokens(): total_length += cell_len(token)", f.where, "the length test walks the printed tokens",
+              "Node.check_length no longer measures the tokens produced by iter_tokens(): a separately maintained length (e.g. a cached per-node width) can disagree with what is printed - such as the trailing comma of a one-element tuple - so a container stays on one line although it is wider than max_width")
+    src = norm(f.node)
+    ctx.check("total_length = start_length" in src and "if total_length > max_length" in src, f.fq, "start_length / max_length", f.where, "prefix counted and compared with the limit", "check_length does not start from start_length or compare with max_length")
+    g = m.fn("_Line.check_length")
+    ctx.check("len(self.whitespace) + cell_len(self.text) + cell_len(self.suffix)" in norm(g.node), g.fq, "start_length", g.where, "indent, text and suffix are counted", "_Line.check_length does not count whitespace + text + suffix")
+
+
+RULES = [r16_1, r16_2, r16_3, r16_4, r16_5]
